@@ -492,7 +492,7 @@ func showInCSSString(env *env, out io.Writer, value any) error {
 		s = value.Error()
 	default:
 		v := reflect.ValueOf(value)
-		if v.Type() == byteSliceType {
+		if v.IsValid() && v.Type() == byteSliceType {
 			w := newStringWriter(out)
 			return escapeBytes(w, v.Interface().([]byte), false)
 		}
